@@ -8,10 +8,10 @@ git checkout -q -- .
 git apply $MD/patch.diff || { echo "RESULT $MD patch-does-not-apply"; exit 1; }
 cmake --build _build -j8 -- -k 0 >/tmp/vm_build.log 2>&1
 nerr=$(grep -c "FAILED:" /tmp/vm_build.log)
-( cd $MD && sh ./run.sh >/tmp/vm_demo_with.log 2>&1 ); with=$?
+( cd $MD && bash ./run.sh >/tmp/vm_demo_with.log 2>&1 ); with=$?
 ctest --test-dir _build -j4 --timeout 900 >/tmp/vm_ctest.log 2>&1; ct=$?
 passed=$(grep -o "[0-9]*% tests passed, [0-9]* tests failed out of [0-9]*" /tmp/vm_ctest.log)
 git checkout -q -- .
 cmake --build _build -j8 -- -k 0 >/tmp/vm_build2.log 2>&1
-( cd $MD && sh ./run.sh >/tmp/vm_demo_without.log 2>&1 ); without=$?
+( cd $MD && bash ./run.sh >/tmp/vm_demo_without.log 2>&1 ); without=$?
 echo "RESULT $MD build_failed_targets=$nerr demo_with_patch_rc=$with ctest_rc=$ct [$passed] demo_without_patch_rc=$without"
